@@ -1,0 +1,30 @@
+//! Verification hook H2 (only compiled with `--cfg grafeo_verif`): schedule points.
+//!
+//! `sched_point(name)` is a no-op unless a scheduler callback has been installed with
+//! [`set_scheduler`]. A verification harness installs a callback that parks the calling
+//! thread until the harness' schedule selects it again, which lets the harness own the
+//! interleaving of operations at the granularity of the instrumented points.
+
+use std::sync::{Arc, RwLock};
+
+/// Scheduler callback: receives the static name of the yield point.
+pub type Scheduler = Arc<dyn Fn(&'static str) + Send + Sync>;
+
+static SCHEDULER: RwLock<Option<Scheduler>> = RwLock::new(None);
+
+/// Installs (or, with `None`, removes) the global scheduler callback.
+pub fn set_scheduler(s: Option<Scheduler>) {
+    *SCHEDULER.write().unwrap_or_else(std::sync::PoisonError::into_inner) = s;
+}
+
+/// A yield point. Must only be called while no lock is held.
+#[inline]
+pub fn sched_point(name: &'static str) {
+    let cb = SCHEDULER
+        .read()
+        .unwrap_or_else(std::sync::PoisonError::into_inner)
+        .clone();
+    if let Some(cb) = cb {
+        cb(name);
+    }
+}
